@@ -138,6 +138,7 @@ type FnCtx struct {
 	spawned      []string
 	ownT         []modTarget
 	peelAlt      map[string]string
+	tagsUsed     map[string]types.Type
 	retReach     []string
 	witness      map[string]string
 	loopTargets  map[*ssa.BasicBlock]*loopFrame
@@ -926,6 +927,9 @@ func (fc *FnCtx) implPred(iface types.Type) string {
 	if !fc.declared[name] {
 		fc.declareFun(name, []string{sInt}, sBool)
 		fc.ifaceSeen[name] = iface
+		for id, t := range fc.tagsUsed {
+			fc.implFact(name, iface, id, t)
+		}
 	}
 	return name
 }
@@ -1052,5 +1056,36 @@ func (fc *FnCtx) tagTerm(t types.Type) string {
 		fc.declared["ptrtag:"+id] = true
 		fc.assumeGlobal(sx("isptrtag", id))
 	}
+	if !fc.declared["tagused:"+id] {
+		fc.declared["tagused:"+id] = true
+		if fc.tagsUsed == nil {
+			fc.tagsUsed = map[string]types.Type{}
+		}
+		fc.tagsUsed[id] = t
+		for name, iface := range fc.ifaceSeen {
+			fc.implFact(name, iface, id, t)
+		}
+	}
 	return id
+}
+
+// implFact: whether a concrete dynamic type implements an interface is a static fact of the program's types.
+func (fc *FnCtx) implFact(pred string, iface types.Type, id string, t types.Type) {
+	it, ok := iface.Underlying().(*types.Interface)
+	if !ok {
+		return
+	}
+	if _, isIface := t.Underlying().(*types.Interface); isIface {
+		return
+	}
+	k := "implfact:" + pred + ":" + id
+	if fc.declared[k] {
+		return
+	}
+	fc.declared[k] = true
+	if types.Implements(t, it) {
+		fc.decls = append(fc.decls, fmt.Sprintf("(assert (%s %s))", pred, id))
+	} else {
+		fc.decls = append(fc.decls, fmt.Sprintf("(assert (not (%s %s)))", pred, id))
+	}
 }
